@@ -2657,14 +2657,14 @@ bn_sqrt1(bn_p bn) {
 	bn_t res, bit, tmp;
 
 	BN_POINTER_CHK_EINVAL(bn);
+	if (0 != bn_is_zero(bn)) /* sqrt(0) = 0; bn_clz() needs a non zero number. */
+		return (0);
 	bits = (bn->count * BN_DIGIT_BITS);
 	BN_RET_ON_ERR(bn_init(&res, bits));
 	BN_RET_ON_ERR(bn_init(&bit, bits));
 	BN_RET_ON_ERR(bn_init(&tmp, bits));
-	BN_RET_ON_ERR(bn_assign_2exp(&bit, (bits - bn_clz(bn))));
-	while (bn_cmp(&bit, bn) > 0) {
-		bn_r_shift(&bit, 2);
-	}
+	/* The highest power of four <= bn: an even exponent. */
+	BN_RET_ON_ERR(bn_assign_2exp(&bit, ((bn_calc_bits(bn) - 1) & ~((size_t)1))));
 
 	while (0 == bn_is_zero(&bit)) {
 		BN_RET_ON_ERR(bn_assign(&tmp, &res));
